@@ -117,6 +117,10 @@ def oracle(ck, tier, deep):
             abel.rbasex.cache_cleanup()
             seq = [("SVD", 0), ("diff", 0), ("L2", 0), None]
             seq = [seq[i] for i in rng.permutation(4)]
+            # (after a truncated-SVD call of non-zero strength on the freshly computed basis: the decomposition must not have been done in
+            # place on the cached matrices)
+            quiet(abel.rbasex.rbasex_transform, im, order=order, reg=("SVD", 0.3))
+            quiet(abel.rbasex.rbasex_transform, im, order=order, reg=("L2", 2.0))
             ck.count(("S.reg0.rbasex-order", n, order), suite="S.equivalence")
             for reg in seq + ["forward"]:
                 if reg == "forward":
